@@ -139,6 +139,7 @@ func (v *Violation) Sig() string { return v.Prop + "/" + v.Clause }
 type Result struct {
 	V          *Violation       `json:"violation,omitempty"`
 	Other      string           `json:"other,omitempty"` // violation of a clause owned by another property (run aborted)
+	Abandoned  string           `json:"abandoned,omitempty"` // the harness itself took the system outside what the properties cover; the run is not judged further
 	Infra      string           `json:"infra,omitempty"` // harness trouble (never a violation)
 	Stats      map[string]int64 `json:"stats"`
 	Shape      uint64           `json:"shape"`
